@@ -95,15 +95,97 @@ macro_rules! opt_dbg_for {
     (Error, $e:expr) => { emit::dbg!(#[emit::optional] #[emit::as_error] v: $e) };
 }
 
+// `(inspect: false)` spelled out, see sites.rs
+macro_rules! dsite_plain {
+    (Display, $site:ident, $e:expr) => {
+        if $site.inspect_false() {
+            $site.finish_dbg(|| emit::dbg!(#[emit::as_display(inspect: false)] v: $e))
+        } else {
+            $site.finish_dbg(|| dbg_for!(Display, $e))
+        }
+    };
+    (Debug, $site:ident, $e:expr) => {
+        if $site.inspect_false() {
+            $site.finish_dbg(|| emit::dbg!(#[emit::as_debug(inspect: false)] v: $e))
+        } else {
+            $site.finish_dbg(|| dbg_for!(Debug, $e))
+        }
+    };
+    (Value, $site:ident, $e:expr) => {
+        if $site.inspect_false() {
+            $site.finish_dbg(|| emit::dbg!(#[emit::as_value(inspect: false)] v: $e))
+        } else {
+            $site.finish_dbg(|| dbg_for!(Value, $e))
+        }
+    };
+    (Sval, $site:ident, $e:expr) => {
+        if $site.inspect_false() {
+            $site.finish_dbg(|| emit::dbg!(#[emit::as_sval(inspect: false)] v: $e))
+        } else {
+            $site.finish_dbg(|| dbg_for!(Sval, $e))
+        }
+    };
+    (Serde, $site:ident, $e:expr) => {
+        if $site.inspect_false() {
+            $site.finish_dbg(|| emit::dbg!(#[emit::as_serde(inspect: false)] v: $e))
+        } else {
+            $site.finish_dbg(|| dbg_for!(Serde, $e))
+        }
+    };
+    ($m:ident, $site:ident, $e:expr) => {
+        $site.finish_dbg(|| dbg_for!($m, $e))
+    };
+}
+macro_rules! dsite_opt {
+    (Display, $site:ident, $e:expr) => {
+        if $site.inspect_false() {
+            $site.finish_dbg(|| emit::dbg!(#[emit::optional] #[emit::as_display(inspect: false)] v: $e))
+        } else {
+            $site.finish_dbg(|| opt_dbg_for!(Display, $e))
+        }
+    };
+    (Debug, $site:ident, $e:expr) => {
+        if $site.inspect_false() {
+            $site.finish_dbg(|| emit::dbg!(#[emit::optional] #[emit::as_debug(inspect: false)] v: $e))
+        } else {
+            $site.finish_dbg(|| opt_dbg_for!(Debug, $e))
+        }
+    };
+    (Value, $site:ident, $e:expr) => {
+        if $site.inspect_false() {
+            $site.finish_dbg(|| emit::dbg!(#[emit::optional] #[emit::as_value(inspect: false)] v: $e))
+        } else {
+            $site.finish_dbg(|| opt_dbg_for!(Value, $e))
+        }
+    };
+    (Sval, $site:ident, $e:expr) => {
+        if $site.inspect_false() {
+            $site.finish_dbg(|| emit::dbg!(#[emit::optional] #[emit::as_sval(inspect: false)] v: $e))
+        } else {
+            $site.finish_dbg(|| opt_dbg_for!(Sval, $e))
+        }
+    };
+    (Serde, $site:ident, $e:expr) => {
+        if $site.inspect_false() {
+            $site.finish_dbg(|| emit::dbg!(#[emit::optional] #[emit::as_serde(inspect: false)] v: $e))
+        } else {
+            $site.finish_dbg(|| opt_dbg_for!(Serde, $e))
+        }
+    };
+    ($m:ident, $site:ident, $e:expr) => {
+        $site.finish_dbg(|| opt_dbg_for!($m, $e))
+    };
+}
+
 /// The `emit::dbg!` twin of `sites!`.
 macro_rules! dbg_sites {
     ($site:ident, $x:expr, $some:expr; $($mode:ident)+) => {
         match ($site.case.mode, $site.case.opt) {
             $(
-                (Mode::$mode, Opt::Plain) => $site.finish_dbg(|| dbg_for!($mode, $x)),
+                (Mode::$mode, Opt::Plain) => dsite_plain!($mode, $site, $x),
                 (Mode::$mode, o) => {
                     let ov = if o == Opt::Some { $some } else { None };
-                    $site.finish_dbg(|| opt_dbg_for!($mode, ov))
+                    dsite_opt!($mode, $site, ov)
                 }
             )+
             #[allow(unreachable_patterns)]
